@@ -5,6 +5,11 @@ HERE = os.path.dirname(os.path.dirname(os.path.abspath(__file__)))
 props = [json.loads(l) for l in open(os.path.join(HERE, 'properties.jsonl'))]
 
 CLAIMED = {
+ 'C20': dict(
+    level='proof',
+    text="Deductive: the four integer-literal regexes of _utils.py are proved language-equal to the DSP0004 grammars (z3 regex equivalence, pairwise disjointness), _integerValue_to_int/_to_int against the literal-value spec, _values_tuple (values string, single entries, only ModelError escapes, no recursion), _create_for_element for property/parameter and method elements (only ModelError/ValueError escape; Values/ValueMap sizes reconciled before the table loop: loop invariant), _tovalues_single (exact entry, else first enclosing range in qualifier order, else unclaimed, else ValueError: loop invariant over the range list) and tobinary. Open-range resolution against neighbours and items() order are bounded only (string search is beyond both solvers): exhaustive ValueMap arrays of length <= 3 over a 10-entry alphabet x all 256 values of uint8/sint8 against an independent reference.",
+    note="Trusted: A-REGEX (re->z3 translation, cross-checked vs CPython in selftest), str2int/int() uninterpreted with the stated literal-zero facts, A-FMT, assumed shapes of CIMProperty/CIMMethod slots (_type/_return_type/_qualifiers/_value). Known finding: OCTAL_VALUE rejects octal literals with a zero digit (not repairable without editing an existing test).",
+    technique='contract-based deductive verification (AST->VC symbolic execution, z3/cvc5 incl. regex language equivalence)', ref='7/C20'),
  'C14': dict(
     level='proof',
     text="Deductive: per-call contracts of _open_response, _pull_response, CloseEnumeration, the MaxObjectCount validators and _validate_pull_operations_enabled are discharged for all inputs (symbolic context table, symbolic object lists of any length, any MaxObjectCount) from the real AST by pyvc (z3, cvc5 fallback). Whole-session exactly-once delivery follows from the partition postconditions by induction over pulls. A bounded run-time stand-in exercises the 7 Open/3 Pull operations end to end (labelled bounded, not counted as proved).",
